@@ -26,6 +26,9 @@ class Infra(Exception):
     pass
 
 
+SOLO_LIMIT_S = int(os.environ.get("VERIF_SOLO_LIMIT_S", "300"))
+
+
 # ----------------------------------------------------------------------------- build
 
 def build(profile="checked", features=None, target_dir=None):
@@ -160,6 +163,29 @@ def run_shards(binary, workload, extra, cases, secs, seed, tier, outdir, tag, pr
             # abnormal termination: attribute to the journaled case
             jn = read_journal(out)
             stderr_txt = open(out + ".stderr").read()[-3000:]
+            if rc == 99 and "E57MON-WATCHDOG" in stderr_txt:
+                # per-case wall-clock watchdog: not a verdict by itself. The case is re-run alone with a much larger
+                # limit; only if it still does not return is it reported (for C08/C09 as non-termination of C09).
+                case = jn.get("case") if jn else None
+                verdict = "not-reproduced"
+                if case is not None and case < 2**63:
+                    solo = [a for a in base] + ["--only", str(case), "--case-watchdog", "100000", "--out", out + ".solo"]
+                    try:
+                        sp = subprocess.run(solo, stdout=subprocess.DEVNULL, stderr=subprocess.PIPE, env=ENV, timeout=SOLO_LIMIT_S)
+                        verdict = "returned" if sp.returncode in (0, 1) else f"died rc={sp.returncode}"
+                    except subprocess.TimeoutExpired:
+                        verdict = "still-running"
+                if verdict == "still-running":
+                    vp = "C09" if (abort_prop in ("C08", "C09")) else (abort_prop or prop)
+                    sig = f"{vp}/non-termination/{workload}/{jn.get('note','')[:80]}"
+                    res.viols.append({"prop": vp, "sig": sig, "detail": f"case {case} did not return within {SOLO_LIMIT_S} s when run alone (>= 10^4 x the typical case time; not a proof of divergence): {jn.get('note','')}", "workload": workload, "seed": seed, "case": case, "args": cmd})
+                    res.sigcounts[sig] = res.sigcounts.get(sig, 0) + 1
+                else:
+                    res.inconclusive.append({"why": "per-case watchdog fired but the case returned when run alone", "case": case, "solo": verdict})
+                restarts += 1
+                if case is not None and case < 2**63 and restarts < 200:
+                    start(i, (case - i) // shards + 1, gen + 1)
+                continue
             if "HARNESS PANIC outside a guarded call" in stderr_txt:
                 raise Infra(f"harness bug (panic outside a monitored call) in shard {i}, case {jn}: {stderr_txt[-800:]}")
             cap = "E57MON-ALLOC-CAP-HIT" in stderr_txt
